@@ -246,6 +246,48 @@ def F28():
         raise AssertionError(f"a bit-field value that does not fit was silently dumped as {out!r}")
 
 
+def F29():
+    from dissect.cstruct.tools.stubgen import generate_cstruct_stub
+
+    cs = cstruct()
+    cs.load("enum E : uint8 { };")
+    compile(generate_cstruct_stub(cs), "<stub>", "exec")  # IndentationError
+
+
+def F30():
+    from dissect.cstruct.tools.stubgen import generate_cstruct_stub
+
+    cs = cstruct()
+    cs.load("typedef uint8 arr1[4]; typedef uint8 arr2[4]; typedef uint8 *p1; typedef uint8 *p2;")
+    stub = generate_cstruct_stub(cs)
+    compile(stub, "<stub>", "exec")  # SyntaxError: p2: TypeAlias = uint8*
+    assert "uint8[4]" not in stub, stub
+
+
+def F31():
+    cs = cstruct()
+    cs.load("union t { struct { uint8 x; uint8 y; }; uint16 v; };")
+    o = cs.t(b"\x01\x02")
+    o.x = 5  # KeyError('x') after the value was applied
+    assert o.dumps() == b"\x05\x02"
+
+
+def F32():
+    cs = cstruct()
+    cs.load("union t { struct { uint8 x; uint8 y; uint8 z; }; uint16 v; };")
+    assert cs.t(b"\x01\x02\x03").dumps() == b"\x01\x02\x03", cs.t(b"\x01\x02\x03").dumps()
+
+
+def F33():
+    cs = cstruct()
+    cs.load("struct s { uint8 lo; uint8 hi; }; union t { s s; uint16 v; };")
+    o = cs.t(b"\x01\x02")
+    p = o.s
+    p.lo = 9
+    p.hi = 8
+    assert o.dumps() == b"\x09\x08", o.dumps()  # the second write through the (stale) proxy is lost
+
+
 ALL = {k: v for k, v in globals().items() if k.startswith("F") and callable(v)}
 
 if __name__ == "__main__":
